@@ -8,6 +8,8 @@ use mdk_storage_traits::groups::GroupStorage;
 use nostr::nips::nip44;
 use nostr::{Event, EventBuilder, Keys, Kind, PublicKey, SecretKey, Tag, TagKind, Timestamp};
 use openmls::prelude::*;
+// explicit import: both preludes export a `GroupId` (glob ambiguity is an error on nightly)
+use mdk_storage_traits::GroupId;
 use openmls_basic_credential::SignatureKeyPair;
 use tls_codec::Serialize as _;
 
